@@ -220,7 +220,9 @@ def single_assignments(fn: FuncInfo) -> dict[str, ast.AST]:
                 vals[n.target.id] = n.value
             if isinstance(n, ast.AugAssign):
                 counts[n.target.id] += 1
-        elif isinstance(n, (ast.For, ast.AsyncFor, ast.comprehension)):
+        elif isinstance(n, (ast.For, ast.AsyncFor)):
+            # (a comprehension's variables live in the comprehension's own scope: they re-bind nothing here; expand_aliases does not
+            # substitute a name inside a comprehension that binds it)
             for x in ast.walk(n.target):
                 if isinstance(x, ast.Name):
                     counts[x.id] = counts.get(x.id, 0) + 2
@@ -256,13 +258,34 @@ def expand_aliases(fn: FuncInfo, e: ast.AST, depth: int = 3) -> ast.AST:
     sa = single_assignments(fn)
 
     class T(ast.NodeTransformer):
+        def __init__(self):
+            self.shadow: list[set] = []
+
         def visit_Name(self, n: ast.Name):
-            if isinstance(n.ctx, ast.Load) and n.id in sa:
+            if isinstance(n.ctx, ast.Load) and n.id in sa and not any(n.id in s_ for s_ in self.shadow):
                 return ast.parse(unparse(sa[n.id]), mode='eval').body
             return n
 
         def visit_NamedExpr(self, n: ast.NamedExpr):
             return self.visit(n.value)          # `(x := v)` evaluates to v
+
+        def _comp(self, n):
+            # the first iterable is evaluated outside the comprehension's scope; everything else sees the comprehension's variables
+            bound = {x.id for g in n.generators for x in ast.walk(g.target) if isinstance(x, ast.Name)}
+            n.generators[0].iter = self.visit(n.generators[0].iter)
+            self.shadow.append(bound)
+            try:
+                for i_, g in enumerate(n.generators):
+                    if i_:
+                        g.iter = self.visit(g.iter)
+                    g.ifs = [self.visit(x) for x in g.ifs]
+                for fld in ('elt', 'key', 'value'):
+                    if hasattr(n, fld):
+                        setattr(n, fld, self.visit(getattr(n, fld)))
+            finally:
+                self.shadow.pop()
+            return n
+        visit_ListComp = visit_SetComp = visit_GeneratorExp = visit_DictComp = _comp
     cur = ast.parse(unparse(e), mode='eval').body
     for _ in range(depth):
         before = unparse(cur)
@@ -271,6 +294,48 @@ def expand_aliases(fn: FuncInfo, e: ast.AST, depth: int = 3) -> ast.AST:
         if unparse(cur) == before:
             break
     return cur
+
+
+def string_parts(e: ast.AST) -> list[str]:
+    """The pieces a string-building expression concatenates, in order, each as source text: `a + B + c`, `f"{a}{B}{c}"`, `''.join([a, B, c])`
+    all give [a, B, c]; literal pieces are given as their repr.  A formatted value with a conversion or format spec is kept whole."""
+    if isinstance(e, ast.BinOp) and isinstance(e.op, ast.Add):
+        return string_parts(e.left) + string_parts(e.right)
+    if isinstance(e, ast.JoinedStr):
+        out = []
+        for v in e.values:
+            if isinstance(v, ast.FormattedValue) and v.conversion == -1 and v.format_spec is None:
+                out += string_parts(v.value)
+            elif isinstance(v, ast.Constant):
+                out.append(repr(v.value))
+            else:
+                out.append(unparse(v))
+        return out
+    if isinstance(e, ast.Call) and call_name(e) == 'join' and isinstance(e.func, ast.Attribute) and const(e.func.value) == '' and len(e.args) == 1 \
+            and isinstance(e.args[0], (ast.List, ast.Tuple)):
+        return [p_ for x in e.args[0].elts for p_ in string_parts(x)]
+    if isinstance(e, ast.Constant) and isinstance(e.value, str):
+        return [repr(e.value)]
+    return [unparse(e)]
+
+
+def regex_match_sites(fn: FuncInfo) -> list[tuple[ast.Call, ast.AST, ast.AST]]:
+    """(call, pattern expression, subject) for every anchored regex match in `fn`: `re.match(P, s)` / `re.fullmatch(P, s)`, or
+    `C.match(s)` where C is (a local bound to) `re.compile(P)`.  Local aliases are expanded in the pattern."""
+    out = []
+    for x in calls_in(fn.node):
+        if call_name(x) not in ('match', 'fullmatch') or not isinstance(x.func, ast.Attribute):
+            continue
+        if unparse(x.func.value) == 're' and len(x.args) >= 2:
+            pe = expand_aliases(fn, x.args[0])
+            if isinstance(pe, ast.Call) and unparse(pe.func) == 're.compile' and pe.args:
+                pe = pe.args[0]
+            out.append((x, pe, x.args[1]))
+        elif len(x.args) >= 1:
+            c = expand_aliases(fn, x.func.value)
+            if isinstance(c, ast.Call) and unparse(c.func) == 're.compile' and c.args:
+                out.append((x, c.args[0], x.args[0]))
+    return out
 
 
 def expanded_guards(eng: Engine, fn: FuncInfo, node: ast.AST) -> list[tuple[ast.AST, bool, Node]]:
